@@ -94,7 +94,7 @@ def mk_register(kind="reg3"):
     if kind == "layout3":
         from pulser.register.register_layout import RegisterLayout
 
-        lay = RegisterLayout([[0.0, 0.0], [5.0, 0.0], [0.0, 5.0], [5.0, 5.0]])
+        lay = RegisterLayout([[0.0, 0.0], [5.0, 0.0], [0.0, 5.0], [5.0, 5.0], [10.0, 0.0], [10.0, 5.0]], slug="lay6")
         return lay.define_register(0, 2, 1, qubit_ids=("q0", "q1", "q2"))
     raise ValueError(kind)
 
@@ -104,8 +104,55 @@ def mk_register(kind="reg3"):
 # --------------------------------------------------------------------------
 
 
+def ev(expr, env):
+    """Evaluate an expression descriptor over env (name -> Variable | value).
+    The same Python operators build a ParamObj on Variables and a proxy /
+    number on values."""
+    import numpy as _np
+
+    if not isinstance(expr, list):
+        return expr
+    op = expr[0]
+    if op == "var":
+        v = env[expr[1]]
+        return v
+    if op == "item":
+        v = env[expr[1]]
+        return v[expr[2]]
+    a = [ev(x, env) for x in expr[1:]]
+    if op == "add":
+        return a[0] + a[1]
+    if op == "sub":
+        return a[0] - a[1]
+    if op == "mul":
+        return a[0] * a[1]
+    if op == "div":
+        return a[0] / a[1]
+    if op == "floordiv":
+        return a[0] // a[1]
+    if op == "mod":
+        return a[0] % a[1]
+    if op == "pow":
+        return a[0] ** a[1]
+    if op == "neg":
+        return -a[0]
+    if op == "abs":
+        return abs(a[0])
+    if op in ("sin", "cos", "exp", "sqrt", "tan", "tanh", "log"):
+        from symx import facade as _f
+
+        x = a[0]
+        if hasattr(x, "variables"):
+            return getattr(_np, op)(x)
+        return getattr(_f.FACADE if _f.has_sym(x) else _np, op)(x)
+    raise ValueError(op)
+
+
 def val(inp, a):
     """Resolve an argument descriptor to a value (proxy or concrete)."""
+    if isinstance(a, dict) and "e" in a:
+        r = ev(a["e"], inp.env)
+        return r
     if isinstance(a, dict) and "s" in a:
         k = a.get("k", "real")
         if k == "real":
@@ -191,6 +238,7 @@ def run_op(inp, seq, op):
         return seq.enable_eom_mode(op[1], val(inp, op[2]), val(inp, op[3]), *( [val(inp, op[4])] if len(op) > 4 and op[4] is not None else [] ), **kw)
     if n == "modify_eom":
         kw = dict(op[5]) if len(op) > 5 else {}
+        kw = {k: val(inp, v) for k, v in kw.items()}
         return seq.modify_eom_setpoint(op[1], val(inp, op[2]), val(inp, op[3]), *( [val(inp, op[4])] if len(op) > 4 and op[4] is not None else [] ), **kw)
     if n == "disable_eom":
         kw = dict(op[2]) if len(op) > 2 else {}
